@@ -161,7 +161,7 @@ def run_shard(spec, res):
                         pairs.append(((k1, rng.choice(['DL', 'DLR', 'ERR'])),
                                       (k2, rng.choice(['DL', 'DLR', 'ERR']))))
                 rng.shuffle(pairs)
-                jobs = pairs[:1500]
+                jobs = pairs[:400]
             for job in jobs:
                 prepare(name)
                 injs = [faults.Injector(k, kind, watch) for k, kind in job]
